@@ -565,6 +565,12 @@ class solver_dynamic(ProbabilisticSolver):
         zeros = tree.tree_map(np.zeros_like, fx.noise.mean)
         output_scale = observed.residual_whitened_rms_tree(zeros)
 
+        # Keep the local scale strictly positive. If the residual vanishes exactly
+        # (e.g. if a solution component is a polynomial of degree <= num_derivatives),
+        # a zero scale means zero process noise, a singular innovation covariance,
+        # and ultimately 0/0 = NaN in the correction below.
+        output_scale = np.maximum(output_scale, np.finfo_eps(output_scale.dtype))
+
         if self.stop_gradient_through_calibration:
             output_scale = func.stop_gradient(output_scale)
 
